@@ -381,7 +381,7 @@ func c15Judge(c *ev.Collector, k c15Case, x *bsched.Exec) string {
 		}
 		failed := strings.HasPrefix(o.Class, "err:") || o.Class == "eof"
 		isRecv := o.Op == 'R' || o.Op == 'U' || o.Op == 'C'
-		isSend := o.Op == 'S' || o.Op == 'O'
+		isSend := o.Op == 'S' || o.Op == 'O' || o.Op == 'Q' // CloseRequest is the last act of sending
 		switch {
 		case !failed:
 			if started == "after" && (isRecv || isSend) {
@@ -471,6 +471,14 @@ func c15Cases(thorough bool) []c15Case {
 		for _, dl := range []bool{false, true} {
 			for _, kind := range []Kind{KUnary, KClient, KServer} {
 				out = append(out, c15Case{Proto: p, Kind: kind, ReqMode: memhttp.ReqEager, Client: "fixed", Deadline: dl, Cause: true, DoCause: true, HRecv: 0, HSend: 0, Bound: 1})
+			}
+		}
+	}
+	// a bidi receiver that starts before anything was sent (nothing has made the request yet)
+	for _, p := range AllProtos {
+		for _, dl := range []bool{false, true} {
+			for _, w := range []string{"R", "RP"} {
+				out = append(out, c15Case{Proto: p, Kind: KBidi, ReqMode: memhttp.ReqEager, Client: w, Deadline: dl, HRecv: 0, HSend: 1, Bound: 1})
 			}
 		}
 	}
